@@ -348,3 +348,36 @@ def reload_spares_ignored(run, ctx, rid, what):
 def nodes_within_loop(cfg, h):
     ids = cfg.branch_nodes(h, 'true')
     return [n for n in cfg.nodes if n.id in ids]
+
+
+# ---- small structural predicates used instead of statement text ------------------------------
+
+def attr_stores(fnode, attr, owner='self'):
+    """[(statement, value)] for every `owner.attr = value` in fnode (tuple targets included)."""
+    out = []
+    for st in ast.walk(fnode):
+        if isinstance(st, (ast.Assign, ast.AnnAssign)) and getattr(st, 'value', None) is not None:
+            for t in astq.attr_targets(st):
+                if isinstance(t, ast.Attribute) and t.attr == attr and dotted(t.value) == owner:
+                    out.append((st, st.value))
+    return out
+
+
+def is_call_of(fnode, value, func, arg=None):
+    """value (seen through single-assignment locals) is `func(arg, ...)`"""
+    v = astq.resolve_local(fnode, value)
+    if isinstance(v, ast.Call) and dotted(v.func) == func and v.args:
+        if arg is None:
+            return True
+        a = astq.resolve_local(fnode, v.args[0])
+        return astq.norm_text(a) == arg
+    return False
+
+
+def is_copy_of(fnode, value, name):
+    """value is a fresh shallow copy of `name`: dict(name) / name.copy() / copy.copy(name) /
+    {**name}"""
+    v = astq.resolve_local(fnode, value)
+    t = astq.norm_text(v)
+    return t in ('dict(%s)' % name, '%s.copy()' % name, 'copy.copy(%s)' % name,
+                 '{**%s}' % name, 'dict(**%s)' % name, 'dict(%s.items())' % name)
